@@ -979,6 +979,17 @@ def m_slice_iter_next(it, st, fr, t, args, ga):
     n = c.len.const_value() if c.len is not None else None
     if n == 0:
         return ('fork', [(None, none_)])
+    if n is None and c.len is not None and not c.extra.get('havocked') and not c.extra.get('pos'):
+        # explicit next() on a fresh iterator outside a loop (the "peel the first element" idiom): Some(elem 0) exactly when
+        # the sequence is non-empty, and the iterator goes on with the rest of the sequence
+        def first_(it2, s2, f2):
+            c2 = _cont(it2, s2, it2.operand(s2, f2, t['args'][0]))
+            v = _elem_value(it2, s2, c2, ZERO)
+            s2.last_iter_elem = (c2.term, v, c2.len)
+            c2.term = ('from', c2.term, Poly.const(1))
+            c2.len = c2.len - 1
+            return some(I.RefV(s2.new_cell(v)))
+        return ('fork', [(cmp_term('Gt', c.len, 0), first_), (cmp_term('Eq', c.len, 0), none_)])
     if n is not None and n <= 4 and not c.extra.get('havocked'):
         # short constant-length sequence: deterministic iteration (the loop is unrolled by the interpreter)
         pos = c.extra.get('pos', 0)
